@@ -23,7 +23,8 @@ package actor
 //     RemoteSpawn supports the one request the relocation path can issue (a singleton spawn forwarded to
 //     the coordinator) and performs the singleton branch of the real remote-spawn handler on the target.
 //     RemoteAsk / RemoteTell honour ctx and the timeout (see C35).
-//   * cluster.Store -> the repository's own cluster.MemoryStore.
+//   * cluster.Store -> the repository's own cluster.MemoryStore behind a wrapper (c33Store) that can
+//     intercept DeletePeerState (an explorer event).
 
 import (
 	"context"
@@ -114,6 +115,64 @@ type c33World struct {
 	gateScan    bool         // CountActorsByHost waits for release
 	scanWait    []chan error
 	batchLog    []string
+	gateDelete  bool // DeletePeerState on a gated store waits for release (see c33Store)
+	deleteWait  []chan struct{}
+}
+
+// c33Store wraps the repository's MemoryStore; DeletePeerState can be intercepted so that "the snapshot
+// removal of a finishing relocation is still pending" is a state the explorer can act in.  Calls made by
+// the harness goroutine itself (inside handleNodeLeftEvent) are never intercepted (bypass).
+type c33Store struct {
+	cluster.Store
+	w      *c33World
+	bypass bool
+}
+
+func (s *c33Store) DeletePeerState(ctx context.Context, peerAddress string) error {
+	s.w.mu.Lock()
+	if s.w.gateDelete && !s.bypass {
+		ch := make(chan struct{})
+		s.w.deleteWait = append(s.w.deleteWait, ch)
+		s.w.mu.Unlock()
+		<-ch
+	} else {
+		s.w.mu.Unlock()
+	}
+	return s.Store.DeletePeerState(ctx, peerAddress)
+}
+
+func (w *c33World) deletesWaiting() int {
+	w.mu.Lock()
+	defer w.mu.Unlock()
+	return len(w.deleteWait)
+}
+
+// releaseDelete lets the oldest intercepted DeletePeerState proceed.
+func (w *c33World) releaseDeletes() int {
+	w.mu.Lock()
+	chs := w.deleteWait
+	w.deleteWait = nil
+	w.mu.Unlock()
+	for _, ch := range chs {
+		close(ch)
+	}
+	return len(chs)
+}
+
+// handleNodeLeft runs the node's real handleNodeLeftEvent on the calling (harness) goroutine.
+func (n *c33Node) handleNodeLeft(ev *cluster.Event) {
+	st, _ := n.sys.clusterStore.(*c33Store)
+	if st != nil {
+		n.sys.cluster.(*c33Cluster).w.mu.Lock()
+		st.bypass = true
+		n.sys.cluster.(*c33Cluster).w.mu.Unlock()
+	}
+	n.sys.handleNodeLeftEvent(ev)
+	if st != nil {
+		n.sys.cluster.(*c33Cluster).w.mu.Lock()
+		st.bypass = false
+		n.sys.cluster.(*c33Cluster).w.mu.Unlock()
+	}
 }
 
 // ---------------------------------------------------------------------------------------------
@@ -493,7 +552,7 @@ func c33NewWorld(roleSets [][]string) *c33World {
 		sys.remoteHostPort = net.JoinHostPort(c33Host, strconv.Itoa(n.remotingPort))
 		sys.clusterNode = &discovery.Node{Name: c33System, Host: c33Host, PeersPort: n.peersPort, RemotingPort: n.remotingPort, DiscoveryPort: n.peersPort + 1000, Roles: n.roles}
 		sys.cluster = n.cl
-		sys.clusterStore = cluster.NewMemoryStore()
+		sys.clusterStore = &c33Store{Store: cluster.NewMemoryStore(), w: w}
 		sys.remoting = n.rem
 		sys.locker.Unlock()
 		sys.clusterEnabled.Store(true)
